@@ -56,7 +56,8 @@ structure HdrCfg where
   normLic : Text → Text       -- `str(_LICENSING.parse(x))`: the rendering of a parsed expression
 
 /-- `_create_new_header`: the written header must read back the requested copyright lines
-    *and* the requested licence expressions. -/
+    *and* the requested licence expressions — and, when it shows contributors at all (the
+    template renders them), exactly the requested contributors. -/
 def createNewHeader (c : HdrCfg) (info : Extracted) : Except HeaderErr Text := do
   let rendered := stripChars ['\n'] (c.render ⟨sortTexts info.cpr, sortTexts info.con, sortTexts info.lic⟩)
   let result ←
@@ -65,8 +66,10 @@ def createNewHeader (c : HdrCfg) (info : Extracted) : Except HeaderErr Text := d
       | .ok t => pure (stripChars ['\n'] t)
       | .error _ => throw .commentCreate
   let back := extractRaw result
-  -- (an unparseable expression in the rendered header is not anticipated by the code: C16)
-  if sameSet info.cpr back.cpr && sameSet (info.lic.map c.normLic) (back.lic.map c.normLic) then pure result
+  -- an expression in the rendered header that does not parse (a template may spell one out): the
+  -- reader raises, no header (fixes/annotate-broken-template.diff)
+  if back.lic.all c.parses && (sameSet info.cpr back.cpr && sameSet (info.lic.map c.normLic) (back.lic.map c.normLic)
+      && (back.con.isEmpty || sameSet info.con back.con)) then pure result
   else throw .missingInfo
 
 /-- `create_header` -/
